@@ -39,7 +39,7 @@ RULE = ("scripted introductions: NAT type of requester x of introduced peer (4x4
         "its WAN address, response only (via a fourth node), response then request, request then response} x "
         "NAT port policy {preserving, remapped} x LAN numbering drawn from all three RFC 1918 ranges incl. their edges and "
         "colliding /24s x listening ports {all 8090, distinct} x optional noise walks among candidates; plus random "
-        "histories: 3-6 hosts, 6-25 random walk/ask ops. distinct = distinct (configuration, op list); non-trivial = at "
+        "histories: 3-6 hosts with random ages, 6-25 random walk/ask ops in either of two overlays. distinct = distinct (configuration, op list); non-trivial = at "
         "least one packet was dropped by a NAT filter or delivered over a LAN segment")
 TRUSTED_BASE = [
     "tools/gen_c13.py: AST translation of the address decisions of community.py (assignments, if/elif chains, list appends, tuple/attribute/index expressions); IPv4 only, isinstance(x, UDPv4Address) is translated to true",
@@ -60,6 +60,8 @@ PLACEMENTS = ["public", "diff", "same", "rPub", "pPub"]
 # how the introducer learned the candidates: their first request | repeated requests, the later ones sent after the
 # candidate learned its WAN address | their response only | response, then a request | request, then a response
 HISTORIES = ["normal", "repeat", "response", "resp+req", "req+resp"]
+# node ages = Lamport clock (global time) a node starts with: young, around the 16 bit wrap of the identifier, old
+AGES = [0, 0, 1, 1000, 65532, 65534, 65535, 65536, 70000, 131071, 2 ** 32 + 5]
 KIND_BY_CLASS = {
     "IntroductionRequestPayload": ("req", 0), "NewIntroductionRequestPayload": ("req", 1),
     "IntroductionResponsePayload": ("resp", 0), "NewIntroductionResponsePayload": ("resp", 1),
@@ -231,14 +233,19 @@ class World:
         from ipv8.community import Community
         from ipv8.keyvault.crypto import default_eccrypto
 
-        class IntroCommunity(Community):
+        class IntroCommunity0(Community):
             community_id = b"\x13" * 20
 
-        env = {"loop": loop, "com": com, "epmod": epmod, "cls": IntroCommunity, "ep": make_endpoint_class(),
+        class IntroCommunity1(Community):
+            community_id = b"\x14" * 20
+
+        env = {"loop": loop, "com": com, "epmod": epmod, "cls": [IntroCommunity0, IntroCommunity1],
+               "ep": make_endpoint_class(),
                "keys": [default_eccrypto.generate_key("curve25519") for _ in range(10)], "world": None,
                "catch": ErrCatcher()}
-        logging.getLogger("IntroCommunity").addHandler(env["catch"])
-        logging.getLogger("IntroCommunity").propagate = False
+        for nm in ("IntroCommunity0", "IntroCommunity1"):
+            logging.getLogger(nm).addHandler(env["catch"])
+            logging.getLogger(nm).propagate = False
 
         def lan_addresses():
             w = env["world"]
@@ -262,6 +269,7 @@ class World:
         self.lines: list[str] = ["reset"]
         self.expect: list[str | None] = ["ok"]
         self.kinds: dict[str, int] = {}
+        self.raised: dict[str, int] = {}
 
     # --- construction ---------------------------------------------------------------------------------------------
     def add_host(self, lan, wan, box, typ) -> int:
@@ -273,7 +281,9 @@ class World:
         key = self.e["keys"][h.idx]
         self.net.current = h
         try:
-            h.node = self.e["cls"](CommunitySettings(my_peer=Peer(key), endpoint=h.ep, network=Network()))
+            me, nw = Peer(key), Network()
+            h.nodes = [c(CommunitySettings(my_peer=me, endpoint=h.ep, network=nw)) for c in self.e["cls"]]
+            h.node = h.nodes[0]
         finally:
             self.net.current = None
         self.keyidx[key.pub().key_to_bin()] = h.idx
@@ -300,13 +310,15 @@ class World:
         for h in self.net.hosts:
             if h.node is not None:
                 h.node.endpoint.close()
-                h.node.cancel_all_pending_tasks()
+                for nd in h.nodes:
+                    nd.cancel_all_pending_tasks()
         self.e["world"] = None
 
     # --- decoding packets for the trace ----------------------------------------------------------------------------
     def describe(self, data: bytes, count: bool = False) -> str:
         import ipv8.messaging.payload as pl
-        node = self.net.hosts[0].node
+        svc = next((j for j, nd in enumerate(self.net.hosts[0].nodes) if nd.get_prefix() == data[:22]), 0)
+        node = self.net.hosts[0].nodes[svc]
         mid = data[22]
         for cname, (kind, ns) in KIND_BY_CLASS.items():
             cls = getattr(pl, cname)
@@ -318,74 +330,91 @@ class World:
             self.kinds[f"{kind}{ns}"] = self.kinds.get(f"{kind}{ns}", 0) + 1
         if kind == "preq":
             _, p = node._ez_unpack_noauth(cls, data)
-            return f"preq{ns} lw={sa(p.lan_walker_address)} ww={sa(p.wan_walker_address)}"
+            return f"preq{ns} id={p.identifier} lw={sa(p.lan_walker_address)} ww={sa(p.wan_walker_address)}"
         auth, _, p = node._ez_unpack_auth(cls, data)
         k = self.keyidx.get(auth.public_key_bin, -1)
         if kind == "req":
-            return (f"req{ns} k={k} d={sa(p.destination_address)} l={sa(p.source_lan_address)} "
+            return (f"req{ns} k={k} id={p.identifier} d={sa(p.destination_address)} l={sa(p.source_lan_address)} "
                     f"w={sa(p.source_wan_address)}")
         if kind == "resp":
-            return (f"resp{ns} k={k} d={sa(p.destination_address)} l={sa(p.source_lan_address) } "
+            return (f"resp{ns} k={k} id={p.identifier} d={sa(p.destination_address)} l={sa(p.source_lan_address) } "
                     f"w={sa(p.source_wan_address)} li={sa(p.lan_introduction_address)} "
                     f"wi={sa(p.wan_introduction_address)} ins={1 if p.intro_supports_new_style else 0}")
-        return f"punc{ns} k={k} l={sa(p.source_lan_address)} w={sa(p.source_wan_address)}"
+        return f"punc{ns} k={k} id={p.identifier} l={sa(p.source_lan_address)} w={sa(p.source_wan_address)}"
 
     def trace_str(self) -> str:
         if not self.net.trace:
             return "-"
-        return " ; ".join(f"{s}>{sa(d)} {self.describe(data, True)} ={out}" for s, d, data, out in self.net.trace)
+        return " ; ".join(f"{s}/{self.svc_of(data)}>{sa(d)} {self.describe(data, True)} ={out}"
+                          for s, d, data, out in self.net.trace)
+
+    def svc_of(self, data: bytes) -> int:
+        return next((j for j, nd in enumerate(self.net.hosts[0].nodes) if nd.get_prefix() == data[:22]), 0)
 
     # --- operations (executed on the real nodes; the same line goes to the model) -----------------------------------
     def _op(self, line: str, host: Host, fn) -> list:
         self.net.trace = []
         self.net.current = host
+        raised = None
         try:
             fn()
+        except Exception as e:          # e.g. PackError out of walk_to: the request was never sent
+            raised = type(e).__name__
+            self.raised[raised] = self.raised.get(raised, 0) + 1
         finally:
             self.net.current = None
         done = self.net.drain()
         self.lines.append(line)
-        self.expect.append(self.trace_str() if done else "fuel")
+        self.expect.append("nosend" if raised and not self.net.trace else (self.trace_str() if done else "fuel"))
         return list(self.net.trace)
 
-    def walk(self, i: int, addr) -> list:
+    def set_clock(self, i: int, t: int):
+        """the node's age: its Lamport clock (global time) as if it had already created t messages"""
+        self.net.hosts[i].node.update_global_time(t)
+        self.lines.append(f"clock {i} {t}")
+        self.expect.append("ok")
+
+    def walk(self, i: int, addr, s: int = 0) -> list:
         from ipv8.messaging.interfaces.udp.endpoint import UDPv4Address
         h = self.net.hosts[i]
-        return self._op(f"walk {i} {ip2int(addr[0])} {addr[1]}", h, lambda: h.node.walk_to(UDPv4Address(*addr)))
+        return self._op(f"walk {i} {s} {ip2int(addr[0])} {addr[1]}", h, lambda: h.nodes[s].walk_to(UDPv4Address(*addr)))
 
-    def ask(self, i: int, k: int) -> list:
+    def ask(self, i: int, k: int, s: int = 0) -> list:
         h = self.net.hosts[i]
-        peer = next((p for p in h.node.get_peers() if self.keyidx.get(p.public_key.key_to_bin()) == k), None)
+        peer = next((p for p in h.nodes[s].get_peers() if self.keyidx.get(p.public_key.key_to_bin()) == k), None)
         if peer is None:
-            self.lines.append(f"ask {i} {k}")
+            self.lines.append(f"ask {i} {s} {k}")
             self.expect.append("nopeer")
             return []
-        return self._op(f"ask {i} {k}", h, lambda: h.node.get_new_introduction(peer))
+        return self._op(f"ask {i} {s} {k}", h, lambda: h.nodes[s].get_new_introduction(peer))
 
-    def peers(self, i: int) -> dict:
+    def peers(self, i: int, s: int = 0) -> dict:
         from ipv8.messaging.interfaces.udp.endpoint import UDPv4Address, UDPv4LANAddress
         out = {}
-        for p in self.net.hosts[i].node.get_peers():
+        for p in self.net.hosts[i].nodes[s].get_peers():
             k = self.keyidx.get(p.public_key.key_to_bin(), -1)
             out[k] = (p.addresses.get(UDPv4Address), p.addresses.get(UDPv4LANAddress), bool(p.new_style_intro), p.address)
         return out
 
-    def walkable(self, i: int) -> list:
-        n = self.net.hosts[i].node
+    def walkable(self, i: int, s: int = 0) -> list:
+        n = self.net.hosts[i].nodes[s]
         return sorted(((str(a[0]), int(a[1])), bool(n.network.is_new_style(a))) for a in n.get_walkable_addresses())
 
     def query_all(self):
-        """state queries on every node, as protocol lines with canonical (sorted) answers"""
+        """state queries on every node and overlay, as protocol lines with canonical (sorted) answers"""
         for h in self.net.hosts:
             i = h.idx
-            ps = self.peers(i)
-            self.lines.append(f"peers {i}")
-            self.expect.append("S[" + ",".join(sorted(
-                f"{k}/{sa(v4) if v4 else '-'}/{sa(lan) if lan else '-'}/{1 if ns else 0}" for k, (v4, lan, ns, _) in ps.items())) + "]")
-            self.lines.append(f"walkable {i}")
-            self.expect.append("S[" + ",".join(sorted(f"{sa(a)}/{1 if ns else 0}" for a, ns in self.walkable(i))) + "]")
-            self.lines.append(f"est {i}")
-            self.expect.append(f"{sa(h.node.my_estimated_wan)} {sa(h.node.my_estimated_lan)}")
+            for sv in range(len(h.nodes)):
+                ps = self.peers(i, sv)
+                self.lines.append(f"peers {i} {sv}")
+                self.expect.append("S[" + ",".join(sorted(
+                    f"{k}/{sa(v4) if v4 else '-'}/{sa(lan) if lan else '-'}/{1 if ns else 0}"
+                    for k, (v4, lan, ns, _) in ps.items())) + "]")
+                self.lines.append(f"walkable {i} {sv}")
+                self.expect.append("S[" + ",".join(sorted(f"{sa(a)}/{1 if ns else 0}" for a, ns in self.walkable(i, sv))) + "]")
+                nd = h.nodes[sv]
+                self.lines.append(f"est {i} {sv}")
+                self.expect.append(f"{sa(nd.my_estimated_wan)} {sa(nd.my_estimated_lan)} {nd.global_time}")
             self.lines.append(f"sent {i}")
             self.expect.append("S[" + ",".join(sorted(sa(a) for a in h.sent)) + "]")
 
@@ -506,68 +535,92 @@ def scripted(ctx: Ctx, cfg: dict, use_model: bool, batch: list):
         iaddr = hosts[I].wan
         history = cfg["history"]
         new = cfg["style"] == "new"
-        if new:
-            w.walk(R, iaddr)                       # the requester is known to the introducer before any candidate is
-        def by_request(repeat: bool):
-            # the candidate walks to the introducer; with `repeat` it contacts it once more AFTER it learned its own WAN
-            # address from the first response (its request then carries source_wan_address != source_lan_address)
-            for c in cands:
-                w.walk(c, iaddr)
-                if new:
-                    w.ask(c, I)
-                if repeat:
+        # node ages: Lamport clocks as if the nodes had already created that many messages
+        for hidx, age in enumerate(cfg.get("ages", [])):
+            if age and hidx < n:
+                w.set_clock(hidx, age)
+
+        def phase(s: int):
+            """history + introduction + contact attempt + oracle, all inside overlay s"""
+            if new:
+                w.walk(R, iaddr, s)                   # the requester is known to the introducer before any candidate is
+
+            def by_request(repeat: bool):
+                # the candidate walks to the introducer; with `repeat` it contacts it once more AFTER it learned its own
+                # WAN address from the first response (its request then carries source_wan_address != source_lan_address)
+                for c in cands:
+                    w.walk(c, iaddr, s)
                     if new:
-                        w.ask(c, I)
+                        w.ask(c, I, s)
+                    if repeat:
+                        if new:
+                            w.ask(c, I, s)
+                        else:
+                            w.walk(c, iaddr, s)
+
+            def by_response():
+                # the introducer learns the candidates from their RESPONSES.  A second public node X introduces each
+                # candidate to I (X's puncture request makes the candidate open its NAT towards I), then I walks to it.
+                for c in cands:
+                    w.walk(c, hosts[X].wan, s)
+                    if new:
+                        w.ask(c, X, s)
+                for c in cands:
+                    w.set_pref(X, [c] + [k for k in range(n) if k not in (c, X)])
+                    if X not in w.peers(I, s):
+                        w.walk(I, hosts[X].wan, s)
                     else:
-                        w.walk(c, iaddr)
+                        w.ask(I, X, s)
+                    for a, _ns in w.walkable(I, s):
+                        w.walk(I, a, s)
 
-        def by_response():
-            # the introducer learns the candidates from their RESPONSES.  A second public node X introduces each
-            # candidate to I (X's puncture request makes the candidate open its NAT towards I), then I walks to it.
-            for c in cands:
-                w.walk(c, hosts[X].wan)
-                if new:
-                    w.ask(c, X)
-            for c in cands:
-                w.set_pref(X, [c] + [k for k in range(n) if k not in (c, X)])
-                if c == cands[0]:
-                    w.walk(I, hosts[X].wan)
-                else:
-                    w.ask(I, X)
-                for a, _ns in w.walkable(I):
-                    w.walk(I, a)
+            if history == "normal":
+                by_request(False)
+            elif history == "repeat":
+                by_request(True)
+            elif history == "response":
+                by_response()
+            elif history == "resp+req":   # learned from the response first, then the candidate also walks to the introducer
+                by_response()             # (it knows its WAN address by then: X's response told it)
+                by_request(False)
+            elif history == "req+resp":   # learned from the request first, then the introducer asks the candidate itself
+                by_request(False)
+                for c in cands:
+                    w.ask(I, c, s)
+            else:
+                raise ValueError(history)
+            if cfg.get("noise"):
+                for c in cands:
+                    for a, _ns in w.walkable(c, s)[:3]:
+                        if a not in (hosts[R].lan, hosts[R].wan):      # the pair under test stays unconnected
+                            w.walk(c, a, s)
+            w.query_all()
+            # ---- the scripted introduction ---------------------------------------------------------------------
+            already = P in w.peers(R, s) and R in w.peers(P, s)
+            ev1 = w.ask(R, I, s) if new else w.walk(R, iaddr, s)
+            # the requester's next contact attempt: a walk to every address of the introduction that this overlay
+            # reports as walkable (what a DiscoveryStrategy would pick from)
+            named = set()
+            for src, _d, data, out in ev1:
+                if src == I and out.endswith(f":{R}"):
+                    d = w.describe(data)
+                    if d.startswith("resp"):
+                        f = dict(t.split("=") for t in d.split()[1:])
+                        named |= {f["li"], f["wi"], f"{ip2int(hosts[R].lan[0])}:{f['wi'].split(':')[1]}"}
+            handed = [a for a, _ in w.walkable(R, s) if sa(a) in named]
+            w.query_all()
+            ev2 = []
+            for a in handed:
+                ev2 += w.walk(R, a, s)
+            w.query_all()
+            ctx.count("pre:already-peers-in-overlay:%s" % already)
+            check_scripted(ctx, w, dict(cfg, overlay=s), R, P, I, ev1, ev2, handed, s)
 
-        if history == "normal":
-            by_request(False)
-        elif history == "repeat":
-            by_request(True)
-        elif history == "response":
-            by_response()
-        elif history == "resp+req":       # learned from the response first, then the candidate also walks to the introducer
-            by_response()                 # (it knows its WAN address by then: X's response told it)
-            by_request(False)
-        elif history == "req+resp":       # learned from the request first, then the introducer asks the candidate itself
-            by_request(False)
-            for c in cands:
-                w.ask(I, c)
-        else:
-            raise ValueError(history)
-        if cfg.get("noise"):
-            for c in cands:
-                for a, _ns in w.walkable(c)[:3]:
-                    if a not in (hosts[R].lan, hosts[R].wan):      # the pair under test stays unconnected
-                        w.walk(c, a)
-        w.query_all()
-        # ---- the scripted introduction -------------------------------------------------------------------------
-        before = {a for a, _ in w.walkable(R)}
-        ev1 = w.ask(R, I) if new else w.walk(R, iaddr)
-        handed = [a for a, _ in w.walkable(R) if a not in before]
-        w.query_all()
-        ev2 = []
-        for a in handed:
-            ev2 += w.walk(R, a)
-        w.query_all()
-        check_scripted(ctx, w, cfg, R, P, I, ev1, ev2, handed)
+        if cfg.get("overlays") == "other-first":
+            phase(1)          # requester and introduced peer become peers in overlay 1 first (shared Network) …
+        phase(0)              # … and are then introduced to each other in overlay 0
+        for k, v in w.raised.items():
+            ctx.count("api-raised:" + k, v)
         nontrivial = any(o.startswith(("drop:filtered", "lan:")) for _, _, _, o in w.net.log)
         ctx.case(("scripted", tuple(sorted(cfg.items()))), nontrivial)
         for _, _, _, o in w.net.log:
@@ -585,23 +638,30 @@ def scripted(ctx: Ctx, cfg: dict, use_model: bool, batch: list):
         w.close()
 
 
-def check_scripted(ctx: Ctx, w: World, cfg: dict, R: int, P: int, I: int, ev1, ev2, handed):
+def check_scripted(ctx: Ctx, w: World, cfg: dict, R: int, P: int, I: int, ev1, ev2, handed, s: int = 0):
     """The property itself, evaluated on the real nodes and the simulator's delivery log."""
     hosts = w.net.hosts
     hr, hp = hosts[R], hosts[P]
     same = hr.box != 0 and hr.box == hp.box
     tag = f"{cfg['tR']}/{cfg['tP']}/{cfg['placement']}/{cfg['style']}"
-    rep = {"kind": "scripted", "cfg": cfg}
+    rep = {"kind": "scripted", "cfg": {k: v for k, v in cfg.items() if k != "overlay"}, "overlay": s}
     ctx.count(f"cfg:placement:{cfg['placement']}")
     ctx.count(f"cfg:style:{cfg['style']}")
     ctx.count(f"cfg:types:{cfg['tR']}>{cfg['tP']}")
     ctx.count(f"cfg:ncand:{cfg['ncand']}")
     ctx.count(f"cfg:history:{cfg['history']}")
+    ctx.count(f"cfg:overlays:{cfg.get('overlays', 'single')}:phase{s}")
+    ages = cfg.get("ages", [])
+    ctx.count("cfg:requester-age:" + ("young" if not ages or ages[R] < 65536 - 64 else "wraps" if ages[R] < 65536 else "old"))
     ctx.count(f"cfg:ports:{cfg['ports']}:{'same' if cfg['same_port'] else 'distinct'}")
 
     def fail(sig, what):
         ctx.oracle_fail(sig, f"[{tag}] {what}", rep)
 
+    if not ev1:
+        fail("create_introduction_request:not-sent",
+             "the requester's introduction request was never sent (the API call raised: %s)" % (sorted(w.raised) or "nothing"))
+        return
     descr1 = [(s, d, w.describe(data), out) for s, d, data, out in ev1]
     descr2 = [(s, d, w.describe(data), out) for s, d, data, out in ev2]
     # (a) the introduction and the puncture request
@@ -646,7 +706,7 @@ def check_scripted(ctx: Ctx, w: World, cfg: dict, R: int, P: int, I: int, ev1, e
         fail("on_introduction_request:answer-lost", "the introduced peer's answer did not come back: "
              + ", ".join(f"{sa(e[1])}{e[3]}" for e in descr2 if e[0] == P))
     # (e) both end up as verified peers of each other
-    pr, pp = w.peers(R), w.peers(P)
+    pr, pp = w.peers(R, s), w.peers(P, s)
     if P not in pr:
         fail("get_peers:requester", "the introduced peer is not a verified peer of the requester")
     if R not in pp:
@@ -689,34 +749,42 @@ def random_history(ctx: Ctx, seed: int, use_model: bool, batch: list):
             others = [k for k in range(nh) if k != h.idx]
             rng.shuffle(others)
             w.set_pref(h.idx, others)
+        if rng.random() < 0.5:
+            for h in hosts:
+                age = rng.choice(AGES)
+                if age:
+                    w.set_clock(h.idx, age)
+                    ctx.count("op:set-age")
         nops = rng.randrange(6, 26)
         for _ in range(nops):
             i = rng.randrange(nh)
+            sv = 0 if rng.random() < 0.7 else 1
+            ctx.count(f"op:overlay{sv}")
             r = rng.random()
             if r < 0.35:
                 j = rng.randrange(nh)
                 a = rng.choice([hosts[j].wan, hosts[j].wan, hosts[j].lan])
                 ctx.count("op:walk-known")
-                w.walk(i, a)
+                w.walk(i, a, sv)
             elif r < 0.7:
-                wk = w.walkable(i)
+                wk = w.walkable(i, sv)
                 if wk:
                     ctx.count("op:walk-walkable")
-                    w.walk(i, rng.choice(wk)[0])
+                    w.walk(i, rng.choice(wk)[0], sv)
                 else:
                     ctx.count("op:walk-bootstrap")
-                    w.walk(i, hosts[0].wan)
+                    w.walk(i, hosts[0].wan, sv)
             elif r < 0.9:
-                ps = sorted(w.peers(i))
+                ps = sorted(w.peers(i, sv))
                 if ps:
                     ctx.count("op:ask")
-                    w.ask(i, rng.choice(ps))
+                    w.ask(i, rng.choice(ps), sv)
                 else:
                     ctx.count("op:walk-bootstrap")
-                    w.walk(i, hosts[0].wan)
+                    w.walk(i, hosts[0].wan, sv)
             else:
                 ctx.count("op:walk-junk")
-                w.walk(i, rng.choice([("0.0.0.0", 0), ("10.9.9.9", 1), (rand_public_ip(rng, set()), 7), (hosts[i].lan[0], 1)]))
+                w.walk(i, rng.choice([("0.0.0.0", 0), ("10.9.9.9", 1), (rand_public_ip(rng, set()), 7), (hosts[i].lan[0], 1)]), sv)
             if rng.random() < 0.5:
                 w.query_all()
         w.query_all()
@@ -795,7 +863,9 @@ def table_cfgs(rng, variants: int, placements=PLACEMENTS, history="normal"):
                         yield {"tR": tR, "tP": tP, "placement": pl, "style": style, "history": history,
                                "ncand": rng.randrange(1, 6), "ports": rng.choice(["preserve", "remap"]),
                                "same_port": rng.random() < 0.5, "collide": rng.random() < 0.4,
-                               "noise": rng.random() < 0.3, "r_first": rng.random() < 0.34, "seed": rng.randrange(1 << 30)}
+                               "noise": rng.random() < 0.3, "r_first": rng.random() < 0.34, "seed": rng.randrange(1 << 30),
+                               "overlays": "other-first" if rng.random() < 0.3 else "single",
+                               "ages": [rng.choice(AGES) for _ in range(8)] if rng.random() < 0.6 else []}
 
 
 def run(ctx: Ctx):
@@ -832,7 +902,8 @@ def run(ctx: Ctx):
 def sample_trace(ctx: Ctx):
     import random as _random
     cfg = {"tR": "portRestricted", "tP": "portRestricted", "placement": "diff", "style": "old", "history": "normal",
-           "ncand": 2, "ports": "remap", "same_port": True, "collide": True, "noise": False, "r_first": False, "seed": 7}
+           "ncand": 2, "ports": "remap", "same_port": True, "collide": True, "noise": False, "r_first": False, "seed": 7,
+           "overlays": "other-first", "ages": [2 ** 32 + 5, 70000, 65534]}
     sub = Ctx(ctx.prop, ctx.tier, 0)
     w = scripted(sub, cfg, False, [])
     ctx.sample({"cfg": cfg, "model_lines": w.lines[:12], "implementation": w.expect[:12]})
